@@ -185,7 +185,8 @@ def task(shape, column_kind, custom, seplen, indlen, column2=None):
     indent = eng.sym_str("ind", indlen, " \tz") if indlen else ""
     sep = eng.sym_str("sep", seplen, "\n -") if seplen else ""
     trailing = eng.sym_bool("trailing")
-    column = "auto" if column_kind == "auto" else eng.sym_int("col", 0, COLMAX)
+    # "auto" built at run time: an equal but not interned string (what a config file / argv would deliver)
+    column = "".join(("au", "to")) if column_kind == "auto" else eng.sym_int("col", 0, COLMAX)
     E = eng.I.models.eq_simple
     worlds = eng.run(drv, [spec, indent, sep, trailing, column, custom, column2])
     mv = lambda m, x: eng.model_value(m, x)
